@@ -129,7 +129,9 @@ def m_step(stats, n_samples):
     for zeroeth_, first_, average_ in stats:
         zeroeth_order_statistics += zeroeth_
         first_order_statistics += first_
-        average_min_distance += average_
+        # each block reports the average over its own samples: weight it by
+        # the block's sample count so that the total is the mean over all samples
+        average_min_distance += average_ * np.sum(zeroeth_)
     average_min_distance /= n_samples
 
     means = first_order_statistics / zeroeth_order_statistics[:, None]
